@@ -853,4 +853,179 @@ theorem eventually_done (c : Cfg) (a : Nat) (σ0 : Sys) (sched : Nat → Ev) (hw
           show (sysStep c (sysAt c σ0 sched (n + d)) (sched (n + d))).mu c a ≤ k
           omega)
 
+/-! ### from the Top port's outgoing buffer to the requester -/
+
+/-- what enters the delivered log enters the Top port's outgoing buffer, and nothing else does -/
+def TopExt (s s' : St) : Prop := ∃ more, s'.delivered = s.delivered ++ more ∧ s'.topOut = s.topOut ++ more
+
+theorem TopExt.refl (s : St) : TopExt s s := ⟨[], by simp, by simp⟩
+
+theorem TopExt.trans {a b c : St} (h1 : TopExt a b) (h2 : TopExt b c) : TopExt a c := by
+  obtain ⟨m1, d1, t1⟩ := h1
+  obtain ⟨m2, d2, t2⟩ := h2
+  exact ⟨m1 ++ m2, by rw [d2, d1, List.append_assoc], by rw [t2, t1, List.append_assoc]⟩
+
+theorem bottomUp_top (c : Cfg) (s : St) : TopExt s (bottomUp c s).1 := by
+  unfold bottomUp
+  repeat' split
+  all_goals first
+    | exact TopExt.refl _
+    | exact ⟨_, rfl, rfl⟩
+
+theorem parseBottom_top (s : St) : TopExt s (parseBottom s).1 := by
+  unfold parseBottom
+  repeat' split
+  all_goals exact ⟨[], by simp, by simp⟩
+
+theorem topDown_top (c : Cfg) (s : St) : TopExt s (topDown c s).1 := by
+  unfold topDown
+  repeat' split
+  all_goals exact ⟨[], by simp, by simp⟩
+
+theorem processCtl_top (c : Cfg) (s : St) : TopExt s (processCtl c s).1 := by
+  unfold processCtl
+  repeat' split
+  all_goals exact ⟨[], by simp, by simp⟩
+
+theorem tick_top (c : Cfg) (s : St) : TopExt s (tick c s).1 := by
+  have hp : TopExt (processCtl c s).1 (runPipeline c (processCtl c s).1).1 := by
+    unfold runPipeline
+    have h1 := iterP_rel TopExt.refl (fun _ _ _ => TopExt.trans) (bottomUp_top c) c.width
+      ((processCtl c s).1, false)
+    have h2 := iterP_rel TopExt.refl (fun _ _ _ => TopExt.trans) parseBottom_top c.width
+      (iterP (bottomUp c) c.width ((processCtl c s).1, false))
+    have h3 := iterP_rel TopExt.refl (fun _ _ _ => TopExt.trans) (topDown_top c) c.width
+      (iterP parseBottom c.width (iterP (bottomUp c) c.width ((processCtl c s).1, false)))
+    exact TopExt.trans (TopExt.trans h1 h2) h3
+  unfold tick
+  split
+  · exact TopExt.refl _
+  · simp only
+    split
+    · exact processCtl_top c s
+    · split
+      · exact processCtl_top c s
+      · exact TopExt.trans (processCtl_top c s) hp
+
+/-- 1 + position of `a`'s response in the Top port's outgoing buffer (0 if it is not there) -/
+def Sys.nu (a : Nat) (σ : Sys) : Nat := lastPos [a] (σ.rob.topOut.map (·.rspTo))
+
+theorem nu_pos (c : Cfg) (a : Nat) (σ : Sys) (ok : σ.Ok c) (d : σ.Done a) (hn : a ∉ σ.out.map (·.rspTo)) :
+    0 < σ.nu a := by
+  unfold Sys.Done Done at d
+  have h : σ.rob.delivered = σ.out ++ σ.rob.topOut := SInv.outLog ok
+  rw [h, List.map_append] at d
+  rcases List.mem_append.1 d with d | d
+  · exact absurd d hn
+  · exact lastPos_pos_of_mem _ _ _ d (by simp)
+
+/-- once `a`'s response is in the Top port, no event moves it back and every response the requester
+    takes moves it one place forward (or hands it over) -/
+theorem taken_step (c : Cfg) (a : Nat) (σ : Sys) (e : Ev) (ok : σ.Ok c) (d : σ.Done a) :
+    a ∈ (sysStep c σ e).out.map (·.rspTo) ∨
+    ((sysStep c σ e).nu a ≤ σ.nu a ∧ (e = .takeRsp → a ∉ σ.out.map (·.rspTo) → (sysStep c σ e).nu a < σ.nu a)) := by
+  have same : a ∈ σ.out.map (·.rspTo) ∨ (σ.nu a ≤ σ.nu a ∧ (False → σ.nu a < σ.nu a)) :=
+    Or.inr ⟨Nat.le_refl _, fun f => f.elim⟩
+  have ok' : SInv c σ.rob σ.mem σ.out := ok
+  cases e with
+  | tick =>
+    refine Or.inr ⟨?_, fun h => by cases h⟩
+    obtain ⟨more, h1, h2⟩ := tick_top c σ.rob
+    -- `a` is already delivered, ids are never delivered twice: `a` is not among `more`
+    have hnd : (((tick c σ.rob).1.delivered).map (·.rspTo)).Nodup := by
+      have hi := tick_inv c σ.rob ok'.inv
+      have : ((tick c σ.rob).1.delivered.map (·.rspTo) ++ (tick c σ.rob).1.txs.map (·.req.id)).Nodup := by
+        rw [hi.order]; exact hi.acceptedNodup.filter _
+      exact (List.nodup_append.1 this).1
+    rw [h1, List.map_append] at hnd
+    have hnot : ∀ x ∈ more.map (·.rspTo), x ∉ [a] := by
+      intro x hx hxa
+      simp at hxa; subst hxa
+      exact (List.nodup_append.1 hnd).2.2 _ d _ hx rfl
+    show lastPos [a] ((tick c σ.rob).1.topOut.map (·.rspTo)) ≤ lastPos [a] (σ.rob.topOut.map (·.rspTo))
+    rw [h2, List.map_append]
+    have key : ∀ (l l' : List Nat), (∀ x ∈ l', x ∉ [a]) → lastPos [a] (l ++ l') = lastPos [a] l := by
+      intro l l'
+      induction l' generalizing l with
+      | nil => intro _; simp
+      | cons y l' ih =>
+        intro hh
+        have : l ++ y :: l' = (l ++ [y]) ++ l' := by simp
+        rw [this, ih (l ++ [y]) (fun x hx => hh x (List.mem_cons_of_mem _ hx)),
+          lastPos_append_not _ _ _ (hh y List.mem_cons_self)]
+    rw [key _ _ hnot]; exact Nat.le_refl _
+  | arrive q =>
+    refine Or.inr ⟨?_, fun h => by cases h⟩
+    simp only [sysStep, Sys.nu, step]; split <;> exact Nat.le_refl _
+  | ctl x =>
+    refine Or.inr ⟨?_, fun h => by cases h⟩
+    simp only [sysStep, Sys.nu, step]; split <;> exact Nat.le_refl _
+  | takeAck => exact Or.inr ⟨Nat.le_refl _, fun h => by cases h⟩
+  | memTake =>
+    refine Or.inr ⟨?_, fun h => by cases h⟩
+    simp only [sysStep, Sys.nu]; split <;> exact Nat.le_refl _
+  | memAnswer j p =>
+    refine Or.inr ⟨?_, fun h => by cases h⟩
+    simp only [sysStep, Sys.nu]
+    split
+    · exact Nat.le_refl _
+    · split
+      · simp only [step]; split <;> exact Nat.le_refl _
+      · exact Nat.le_refl _
+  | takeRsp =>
+    simp only [sysStep, Sys.nu]
+    cases hr : σ.rob.topOut with
+    | nil =>
+      simp only []
+      by_cases hn : a ∈ σ.out.map (·.rspTo)
+      · exact Or.inl hn
+      · have := nu_pos c a σ ok d hn
+        unfold Sys.nu at this; rw [hr] at this; simp [lastPos] at this
+    | cons r rest =>
+      simp only []
+      have ht := lastPos_tail [a] r.rspTo (rest.map (·.rspTo))
+      by_cases hn : a ∈ σ.out.map (·.rspTo)
+      · left; rw [List.map_append]; exact List.mem_append_left _ hn
+      · right
+        have hp := nu_pos c a σ ok d hn
+        unfold Sys.nu at hp; rw [hr] at hp
+        simp only [step, hr, List.drop_one, List.tail_cons, List.map_cons] at ht hp ⊢
+        exact ⟨by omega, fun _ _ => by omega⟩
+
+/-- number of `takeRsp` events -/
+def takeCount : List Ev → Nat
+  | [] => 0
+  | .takeRsp :: es => takeCount es + 1
+  | _ :: es => takeCount es
+
+theorem taken_fold (c : Cfg) (a : Nat) : ∀ (evs : List Ev) (σ : Sys), σ.Ok c → σ.Done a →
+    a ∈ (evs.foldl (sysStep c) σ).out.map (·.rspTo) ∨
+    (evs.foldl (sysStep c) σ).nu a + takeCount evs ≤ σ.nu a
+  | [], σ, _, _ => Or.inr (by simp [takeCount])
+  | e :: es, σ, ok, d => by
+    have ok1 := sysStep_ok c σ e ok
+    have d1 : (sysStep c σ e).Done a := done_fold c a [e] σ ok d
+    have hmono : ∀ (σ1 : Sys), a ∈ σ1.out.map (·.rspTo) → a ∈ (es.foldl (sysStep c) σ1).out.map (·.rspTo) := by
+      intro σ1 h1
+      obtain ⟨t, ht⟩ := sysFold_out c es σ1
+      rw [ht, List.map_append]; exact List.mem_append_left _ h1
+    rcases taken_step c a σ e ok d with h | ⟨le, st⟩
+    · exact Or.inl (hmono _ h)
+    · rcases taken_fold c a es _ ok1 d1 with h | le'
+      · exact Or.inl h
+      · simp only [List.foldl_cons]
+        by_cases hn : a ∈ σ.out.map (·.rspTo)
+        · left
+          obtain ⟨t, ht⟩ := sysStep_out c σ e
+          exact hmono _ (by rw [ht, List.map_append]; exact List.mem_append_left _ hn)
+        · right
+          cases e with
+          | takeRsp => have := st rfl hn; simp only [takeCount]; omega
+          | tick => simp only [takeCount]; omega
+          | arrive q => simp only [takeCount]; omega
+          | memTake => simp only [takeCount]; omega
+          | memAnswer j p => simp only [takeCount]; omega
+          | ctl x => simp only [takeCount]; omega
+          | takeAck => simp only [takeCount]; omega
+
 end C15
